@@ -141,7 +141,8 @@ class World:
                 if c.get('kind') == 'EnumConstantDecl':
                     v = None
                     for cc in c.get('inner', []):
-                        v = const_of_node(cc)
+                        if v is None and cc.get('kind') not in ('FullComment',):
+                            v = const_of_node(cc)
                     if v is None:
                         v = nxt
                     vals.append((c['name'], v))
@@ -350,7 +351,7 @@ def rng(e):
     if k == 'Not':
         lo, hi = rng(e[1])
         return (-hi - 1, -lo - 1)
-    if k in ('Bool', 'LNot', 'Eq', 'Ne', 'Lt', 'Le', 'DLt', 'DLe', 'DEq', 'DNe'):
+    if k in ('Bool', 'LNot', 'Eq', 'Ne', 'Lt', 'Le', 'DLt', 'DLe', 'DEq'):
         return (0, 1)
     if k == 'Cond':
         (al, ah), (bl, bh) = rng(e[2]), rng(e[3])
@@ -518,6 +519,7 @@ class Ctx:
         self.retval = None
         self.depth = 0
         self.reads_in_expr = 0
+        self.inlined = []
 
     def emit(self, s):
         self.stmts.append(s)
@@ -1065,7 +1067,36 @@ class Exec:
             return IntV(mk_bin(o, x, y), CT(1, False, True))
         raise Untr('binary %s' % op)
 
+    def as_dbl(self, v):
+        if isinstance(v, DblV):
+            return v.d
+        if isinstance(v, tuple) and v and v[0] == 'ld':
+            return ('DConst', double_bits_of_fraction(v[1]))
+        if isinstance(v, IntV) and is_const(v.e):
+            return ('DConst', double_bits_of_fraction(Fraction(v.e[1])))
+        raise Untr('operand of floating point arithmetic')
+
     def ev_dbl_binary(self, op, a, b, ty):
+        if ty[0] == 'longdouble':
+            raise Untr('long double arithmetic')
+        x, y = self.as_dbl(a), self.as_dbl(b)
+        if op == '+':
+            return DblV(('DAdd', x, y))
+        if op == '-':
+            return DblV(('DSub', x, y))
+        B = CT(1, False, True)
+        if op == '<':
+            return IntV(('DLt', x, y), B)
+        if op == '>':
+            return IntV(('DLt', y, x), B)
+        if op == '<=':
+            return IntV(('DLe', x, y), B)
+        if op == '>=':
+            return IntV(('DLe', y, x), B)
+        if op == '==':
+            return IntV(('DEq', x, y), B)
+        if op == '!=':
+            return IntV(('LNot', ('DEq', x, y)), B)
         raise Untr('floating point arithmetic `%s`' % op)
 
     def ev_compound(self, n):
@@ -1081,6 +1112,10 @@ class Exec:
         old = self.read_loc(loc)
         v = self.ev(r)
         if isinstance(old, DblV) or isinstance(v, DblV):
+            if op in ('+=', '-=') and loc.ty[0] == 'double':
+                nv = self.ev_dbl_binary(op[0], old, v, ('double',))
+                self.assign(loc, nv)
+                return nv
             raise Untr('floating point arithmetic `%s`' % op)
         cty = self.w.resolve(n.get('computeResultType', {}).get('desugaredQualType') or n.get('computeResultType', {}).get('qualType') or 'int')
         ops = {'&=': 'And', '|=': 'Or', '^=': 'Xor', '+=': 'Add', '-=': 'Sub', '*=': 'Mul'}
@@ -1213,12 +1248,18 @@ class Exec:
             nb, s = int(md.group(2)), md.group(3) == ''
             v = self.ev(args[0])
             p = self.prec_arg(args[1])
-            if len(args) > 2 and args[2].get('kind') != 'CXXDefaultArgExpr':
-                raise Untr('explicit UndefVal')
             if not isinstance(v, DblV):
                 raise Untr('%s of a non-double' % name)
             if nb == 8 and not s:
                 raise Untr('Add8ByteUDouble')
+            if len(args) > 2 and args[2].get('kind') != 'CXXDefaultArgExpr':
+                # explicit UndefVal u:  v != u ? SetBuf..(v, precision) : <the "not available" code>
+                u = self.as_dbl(self.ev(args[2]))
+                if nb == 8:
+                    raise Untr('explicit UndefVal of an 8 byte field')
+                nac = ((1 << (8 * nb - 1)) if s else (1 << (8 * nb))) - 1
+                c.emit(('If', ('DEq', v.d, u), [('WInt', nb, ('Const', nac))], [('WDoubleRaw', nb, s, p, v.d)]))
+                return None
             c.emit(('WDouble', nb, s, p, v.d))
             return None
         if name == 'AddStr':
@@ -1362,6 +1403,7 @@ class Exec:
 
     def inline(self, f, args, this=None):
         c = self.c
+        c.inlined.append(f.get('name'))
         if c.depth > 6:
             raise Untr('inlining depth')
         params = [p for p in f.get('inner', []) if p.get('kind') == 'ParmVarDecl']
@@ -1686,6 +1728,8 @@ def bs(b):
 
 
 def coq_d(d):
+    if d[0] in ('DAdd', 'DSub'):
+        return '(%s %s %s)' % (d[0], coq_d(d[1]), coq_d(d[2]))
     return '(%s %s)' % (d[0], d[1] if d[0] != 'DConst' else zs(d[1]))
 
 
@@ -1713,6 +1757,8 @@ def coq_e(e):
         return '(ECond %s %s %s)' % (coq_e(e[1]), coq_e(e[2]), coq_e(e[3]))
     if k == 'D2I':
         return '(ED2I %d %s %s)' % (e[1], bs(e[2]), coq_d(e[3]))
+    if k in ('DLt', 'DLe', 'DEq'):
+        return '(E%s %s %s)' % (k, coq_d(e[1]), coq_d(e[2]))
     raise Untr('no Coq form for %s' % k)
 
 
@@ -1730,8 +1776,8 @@ def coq_w(s):
     k = s[0]
     if k == 'WInt':
         return '(WInt %d %s)' % (s[1], coq_e(s[2]))
-    if k == 'WDouble':
-        return '(WDouble %d %s %s %s)' % (s[1], bs(s[2]), zs(s[3]), coq_d(s[4]))
+    if k in ('WDouble', 'WDoubleRaw'):
+        return '(%s %d %s %s %s)' % (k, s[1], bs(s[2]), zs(s[3]), coq_d(s[4]))
     if k in ('WStr', 'WAISStr', 'WVarStr', 'WList'):
         return '(%s %d %d)' % (k, s[1], s[2])
     if k == 'If':
@@ -1856,6 +1902,126 @@ def translate_all(world, order):
     return fns
 
 
+# ------------------------------------------------------------------------------------------------ python evaluation of integer expressions
+def pyeval(e, args):
+    k = e[0]
+    if k == 'Const':
+        return e[1]
+    if k == 'Arg':
+        return args.get(e[1], 0)
+    if k in ('Slot', 'Pgn', 'DataLen', 'D2I', 'DLt', 'DLe', 'DEq'):
+        return 0
+    if k == 'Cast':
+        return wrap(pyeval(e[3], args), e[1], e[2])
+    if k == 'Shl':
+        return pyeval(e[1], args) << e[2]
+    if k == 'Shr':
+        return pyeval(e[1], args) >> e[2]
+    if k in ('Not',):
+        return ~pyeval(e[1], args)
+    if k == 'Bool':
+        return int(pyeval(e[1], args) != 0)
+    if k == 'LNot':
+        return int(pyeval(e[1], args) == 0)
+    if k == 'Cond':
+        return pyeval(e[2], args) if pyeval(e[1], args) != 0 else pyeval(e[3], args)
+    a, b = pyeval(e[1], args), pyeval(e[2], args)
+    if k == 'And':
+        return a & b
+    if k == 'Or':
+        return a | b
+    if k == 'Xor':
+        return a ^ b
+    if k == 'Add':
+        return a + b
+    if k == 'Sub':
+        return a - b
+    if k == 'Mul':
+        return a * b
+    if k == 'Div':
+        if b == 0:
+            return 0
+        q = abs(a) // abs(b)
+        return q if (a >= 0) == (b >= 0) else -q
+    if k == 'Eq':
+        return int(a == b)
+    if k == 'Ne':
+        return int(a != b)
+    if k == 'Lt':
+        return int(a < b)
+    if k == 'Le':
+        return int(a <= b)
+    raise Untr('pyeval ' + k)
+
+
+def setter_fields(fn):
+    """per input argument of a setter: which field of the payload carries it (used by the generators and the python oracles)"""
+    ins = fn.ctx.sig.ins
+    info = [dict() for _ in ins]
+    wints = []
+
+    cond_args = {}
+
+    def args_of(e, acc):
+        if isinstance(e, (tuple, list)):
+            if e and e[0] == 'Arg':
+                acc.add(e[1])
+            for x in e[1:]:
+                args_of(x, acc)
+        return acc
+
+    def walk(stmts, conds):
+        for st in stmts:
+            if st[0] == 'WDouble' and st[4][0] == 'DArg':
+                info[st[4][1]].setdefault('fields', []).append({'n': st[1], 's': st[2], 'p': st[3], 'cond': conds})
+            elif st[0] in ('WDouble', 'WDoubleRaw') and st[4][0] == 'DSub' and st[4][1][0] == 'DArg' and st[4][2][0] == 'DConst':
+                # the field carries (argument - constant): PGN 127513 Peukert exponent
+                info[st[4][1][1]].setdefault('fields', []).append({'n': st[1], 's': st[2], 'p': st[3], 'cond': [], 'offset': st[4][2][1]})
+            elif st[0] in ('WStr', 'WAISStr', 'WVarStr'):
+                info[st[2]].setdefault('fields', []).append({'form': st[0], 'len': st[1], 'cond': conds})
+            elif st[0] == 'WList':
+                info[st[2]].setdefault('fields', []).append({'form': 'WList', 'n': st[1], 'cond': conds})
+            elif st[0] == 'WInt':
+                wints.append((st[1], st[2]))
+                for a in args_of(st[2], set()):
+                    cond_args.setdefault(a, []).append(conds)
+            elif st[0] == 'If':
+                wints.append((8, st[1]))
+                walk(st[2], conds + [[expr_json(st[1]), True]])
+                walk(st[3], conds + [[expr_json(st[1]), False]])
+    walk(fn.ctx.stmts, [])
+    if fn.ctx.dest is not None:
+        wints.append((1, fn.ctx.dest))
+    iargs = [a for a, x in enumerate(ins) if x['kind'] == 'int']
+    for a in iargs:
+        ct = ins[a]['ct']
+        used = 0
+        for base in (0, -1):
+            b = {x: (wrap(base, ins[x]['ct'].w, ins[x]['ct'].s) if not ins[x]['ct'].b else (base & 1)) for x in iargs}
+            for j in range(1 if ct.b else ct.w):
+                c = dict(b)
+                c[a] = wrap(b[a] ^ (1 << j), ct.w, ct.s) if not ct.b else (b[a] ^ 1)
+                for n, e in wints:
+                    m = (1 << (8 * n)) - 1
+                    if (pyeval(e, b) & m) != (pyeval(e, c) & m):
+                        used |= 1 << j
+                        break
+        info[a]['bits_used'] = used
+        # width of the field the setter gives the argument: the used bits must be the low ones
+        info[a]['bits'] = used.bit_length()
+        # the argument reaches the payload only under these conditions (it is written inside a conditional): all uses conditional
+        cl = cond_args.get(a, [])
+        if cl and all(c for c in cl):
+            info[a]['cond'] = cl[0]
+    return info
+
+
+def expr_json(e):
+    if isinstance(e, tuple):
+        return [expr_json(x) for x in e if not isinstance(x, CT)]
+    return e
+
+
 # ------------------------------------------------------------------------------------------------ signatures for harness / meta
 def ct_json(ct):
     return {'w': ct.w, 's': ct.s, 'b': ct.b, 'enum': ct.enum}
@@ -1893,6 +2059,9 @@ def fn_meta(world, fn):
         if x['kind'] == 'int':
             e['ct'] = ct_json(x['ct'])
         outs.append(e)
+    if fn.ctx and fn.kind == 'S':
+        for e, inf in zip(ins, setter_fields(fn)):
+            e.update(inf)
     d['ins'], d['outs'] = ins, outs
     d['params'] = [list(p) for p in sig.params]
     if fn.ctx:
@@ -1901,6 +2070,13 @@ def fn_meta(world, fn):
             d['prio'] = fn.ctx.prio
         else:
             d['pgn'] = fn.ctx.guard
+    d['calls'] = list(fn.ctx.inlined) if fn.ctx else []
+    d['guard'] = fn.ctx.guard if (fn.ctx and fn.kind == 'P') else None
+    d['may_be_undefined'] = bool(fn.ctx) and 'ED2I' in getattr(fn, 'coq', '')
+    if d.get('pgn') is None:
+        mm = re.search(r'P[Gg][Nn](\d+)', fn.name)
+        if mm:
+            d['pgn'] = int(mm.group(1))
     d['harness'] = getattr(sig, 'complete', False) and all(not (o['kind'] == 'text' and (o['size'] is None or 'expr' in o['size'])) for o in outs) and fn.kind in ('S', 'P')
     return d
 
@@ -1959,7 +2135,11 @@ def cxx_harness(meta):
             L.append('    bool r = %s(%s);' % (d['cxx'], args))
             L.append('    outB(out, r);')
             for o in d['outs']:
-                if o['kind'] == 'int':
+                if o['kind'] == 'int' and o['ct']['enum'] and not o['ct']['s']:
+                    # read the stored representation: a typed load of an enumeration holding a value outside its enumerators' range
+                    # (e.g. 15 from a 4 bit field) is what -fsanitize=enum reports, and it would be the harness' load, not the library's
+                    L.append('    outU(out, rawU(%s));' % o['lv'])
+                elif o['kind'] == 'int':
                     L.append('    out%s(out, (%s)%s);' % ('I' if o['ct']['s'] else 'U', 'long long' if o['ct']['s'] else 'unsigned long long', o['lv']))
                 elif o['kind'] == 'double':
                     L.append('    outD(out, %s);' % o['lv'])
@@ -1968,7 +2148,10 @@ def cxx_harness(meta):
                 else:
                     L.append('    outT(out, %s, %s_sz);' % (o['lv'], o['lv']))
         L.append('    return true; }')
-    L += ['  default: return false;', '  }', '}', '']
+    L += ['  default: return false;', '  }', '}', '', 'static int fid_of_name(const std::string &n) {']
+    for d in meta:
+        L.append('  if (n == "%s") return %d;' % (d['name'], d['id']))
+    L += ['  return -1;', '}', '']
     return '\n'.join(L)
 
 
@@ -2061,7 +2244,25 @@ def outsig_coq(f, o):
     return 'OT %s' % coq_e(o['size'])
 
 
-def gen_messages_v(fns, meta):
+def enum_value_bits(world, ct):
+    vals = [v for _, v in world.enums[ct.enum]['values']]
+    return max(1, max(vals).bit_length())
+
+
+def argty_coq(world, x):
+    if x['kind'] == 'int':
+        ct = x['ct']
+        if ct.b:
+            return 'TInt 1 false'
+        if ct.enum and not ct.s:
+            return 'TInt %d false' % enum_value_bits(world, ct)
+        return 'TInt %d %s' % (ct.w, bs(ct.s))
+    if x['kind'] == 'double':
+        return 'TDbl'
+    return 'TTxt'
+
+
+def gen_messages_v(fns, meta, world):
     L = ['(* GENERATED by tools/cxx2coq.py from %s/src (clang AST) - do not edit.' % REPO,
          '   One term of the field-level IR (Model/MsgIR.v) per SetN2k*/ParseN2k*/alias function; function ids are positions in source order. *)',
          'From Coq Require Import ZArith List Bool.', 'From N2kV Require Import Model.MsgIR.', 'Import ListNotations.', 'Local Open Scope Z_scope.', '']
@@ -2074,7 +2275,7 @@ def gen_messages_v(fns, meta):
         c = fn.ctx
         if fn.kind == 'S':
             dest = 'None' if c.dest is None else '(Some %s)' % coq_e(c.dest)
-            L.append('Definition s_%s : setter := {| s_pgn := %d; s_prio := %s; s_dest := %s; s_body :=\n    %s |}.' % (fn.cname, c.pgn, zs(c.prio), dest, fn.coq))
+            L.append('Definition s_%s : setter := {| s_pgn := %d; s_prio := %s; s_dest := %s; s_args := [%s]; s_body :=\n    %s |}.' % (fn.cname, c.pgn, zs(c.prio), dest, '; '.join(argty_coq(world, x) for x in c.sig.ins), fn.coq))
             sl.append(fn)
         else:
             g = 'None' if c.guard is None else '(Some %d)' % c.guard
@@ -2084,6 +2285,8 @@ def gen_messages_v(fns, meta):
     L.append('Definition all_setters : list (nat * setter) := [%s].' % ';\n  '.join('(%d%%nat, s_%s)' % (f.id, f.cname) for f in sl))
     L.append('Definition all_parsers : list (nat * parser) := [%s].' % ';\n  '.join('(%d%%nat, p_%s)' % (f.id, f.cname) for f in pl))
     L.append('Definition all_outsigs : list (nat * list outsig) := [%s].' % ';\n  '.join('(%d%%nat, [%s])' % (f.id, '; '.join(outsig_coq(f, o) for o in f.ctx.sig.outs)) for f in pl))
+    L.append('(* function names as ASCII codes, for the line protocol of the drivers *)')
+    L.append('Definition fn_names : list (nat * list Z) := [%s].' % ';\n  '.join('(%d%%nat, [%s])' % (f.id, '; '.join(str(ord(ch)) for ch in f.cname)) for f in fns))
     L.append('Definition untranslated_ids : list nat := [%s].' % '; '.join('%d%%nat' % f.id for f in ul))
     L.append('Definition n_functions : nat := %d%%nat.' % len(fns))
     return '\n'.join(L) + '\n'
@@ -2102,11 +2305,19 @@ def main():
         return json.load(open(outs['msgs_meta.json']))
     world, fns = translate_world()
     meta = [fn_meta(world, fn) for fn in fns]
+    for _ in range(3):
+        for d in meta:
+            if d.get('pgn') is None:
+                for callee in d.get('calls', []):
+                    got = [e.get('pgn') for e in meta if e['cxx'] == callee and e.get('pgn') is not None]
+                    if got:
+                        d['pgn'] = got[0]
+                        break
     pairs = make_pairs(meta)
-    files = {'GenMessages.v': gen_messages_v(fns, meta), 'gen_msgs_dispatch.inc': cxx_harness(meta)}
+    files = {'GenMessages.v': gen_messages_v(fns, meta, world), 'gen_msgs_dispatch.inc': cxx_harness(meta)}
     allmeta = {'functions': meta, 'pairs': pairs, 'source_hash': h, 'repo': REPO,
                'enums': {k: v['values'] for k, v in sorted(world.enums.items())}}
-    files['GenObligations.v'] = gen_obligations_v(fns, meta, pairs, allmeta)
+    files['GenObligations.v'] = gen_obligations_v(fns, meta, pairs, allmeta, world)
     files['msgs_meta.json'] = json.dumps(allmeta, indent=0, sort_keys=True)
     import shutil
     for old in [d for d in os.listdir(GEN) if d.startswith('cache-')]:
@@ -2118,8 +2329,170 @@ def main():
     return allmeta
 
 
-def gen_obligations_v(fns, meta, pairs, allmeta):
-    return '(* GENERATED by tools/cxx2coq.py - per-function obligations are added in a later stage *)\n'
+# findings reported to the lead that are not yet in known_findings.json (key = PGN<n>.<field>.<kind>, as the C05 oracle prints it)
+PENDING_KNOWN_C05 = {
+    'PGN127489.Status2.Status.int': 'PGN 127489: SetN2kPGN127489 writes all 16 bits of discrete status 2, tN2kDD223::operator=(uint16_t) used by the parser keeps the low 8 (bits Manufacturer1..8 are lost, e.g. 0x0100 parses as 0)',
+    'PGN128776.WindlassControlEvents.Events.int': 'PGN 128776: setter writes the whole events byte, tN2kDD478::SetEvents used by the parser keeps bit 0 only (2 parses as 0)',
+    'PGN128777.WindlassOperatingEvents.Events.int': 'PGN 128777: setter writes 6 event bits, tN2kDD483::SetEvents used by the parser keeps 5 (32 parses as 0)',
+    'PGN128778.WindlassMonitoringEvents.Events.int': 'PGN 128778: setter writes the whole events byte, tN2kDD477::SetEvents used by the parser keeps the low 3 bits (8 parses as 0)',
+}
+
+
+def known_keys_c05():
+    keys = set(PENDING_KNOWN_C05)
+    try:
+        for k in json.load(open(os.path.join(VERIF, 'known_findings.json'))).get('findings', []):
+            if k.get('property') == 'C05' and k.get('status') == 'open':
+                keys.add(k['key'])
+    except (OSError, ValueError):
+        pass
+    return keys
+
+
+def setter_shape(stmts):
+    """None when the generic round trip theorem covers the setter body, else the reason"""
+    for st in stmts:
+        if st[0] == 'WInt':
+            continue
+        if st[0] == 'WDouble' and st[4][0] in ('DArg', 'DConst'):
+            continue
+        if st[0] in ('WStr', 'WAISStr'):
+            continue
+        return {'If': 'conditional fields', 'WVarStr': 'variable length string', 'WList': 'repeated records', 'WDoubleRaw': 'computed scaled value',
+                'WDouble': 'computed scaled value'}.get(st[0], st[0])
+    return None
+
+
+def parser_shape(stmts):
+    for st in stmts:
+        k = st[0]
+        if k == 'Read':
+            if st[2][0] == 'RVarStr':
+                return 'variable length string'
+            continue
+        if k in ('SetIdx', 'AddIdx'):
+            if st[1][0] != 'Const':
+                return 'computed index'
+            continue
+        if k in ('OutI', 'OutD', 'OutT'):
+            continue
+        if k == 'Ret':
+            if st[1][0] != 'Const':
+                return 'computed result'
+            continue
+        if k == 'If':
+            if st[2] == [('Ret', ('Const', 0))] and st[3] == []:
+                continue
+            return 'conditional fields'
+        return k
+    return None
+
+
+def gamma_of(world, fn, meta_d):
+    """the argument ranges the round trip theorem assumes: the width the setter gives each integer argument (never more than its type)"""
+    out = []
+    for x, m in zip(fn.ctx.sig.ins, meta_d['ins']):
+        if x['kind'] == 'int':
+            ct = x['ct']
+            if ct.b:
+                tw, sg = 1, False
+            elif ct.enum and not ct.s:
+                tw, sg = enum_value_bits(world, ct), False
+            else:
+                tw, sg = ct.w, ct.s
+            b = m.get('bits')
+            w = tw if (sg or b is None or b == 0) else min(tw, b)
+            out.append('TInt %d %s' % (w, bs(sg)))
+        elif x['kind'] == 'double':
+            out.append('TDbl')
+        else:
+            out.append('TTxt')
+    return out
+
+
+def gen_obligations_v(fns, meta, pairs, allmeta, world):
+    byid = {f.id: f for f in fns}
+    md = {d['id']: d for d in meta}
+    known = known_keys_c05()
+    L = ['(* GENERATED by tools/cxx2coq.py - per-function obligations of C05 (closed by vm_compute) - do not edit *)',
+         'From Coq Require Import ZArith List Bool.', 'From N2kV Require Import Model.MsgIR Model.MsgExec Spec.MsgSpec Gen.GenMessages.',
+         'Import ListNotations.', 'Local Open Scope Z_scope.', '']
+    status = {'rt': [], 'guard': [], 'rt_names': [], 'guard_names': []}
+    gam_done = set()
+    for f in fns:
+        if f.kind == 'S' and f.err is None:
+            L.append('Definition gamma_%s : list argty := [%s].' % (f.cname, '; '.join(gamma_of(world, f, md[f.id]))))
+    L.append('')
+    for f in fns:
+        if f.kind != 'P':
+            continue
+        d = md[f.id]
+        if f.err is not None:
+            status['guard'].append({'fn': f.cname, 'status': 'untranslated'})
+            continue
+        if f.ctx.guard is None:
+            L.append('(* guard_%s : the function does not start with a test of the PGN *)' % f.cname)
+            L.append('Example guard_%s : guard_check p_%s %d = true.  Proof. vm_compute. reflexivity. Qed.' % (f.cname, f.cname, d.get('pgn') or 0))
+            status['guard'].append({'fn': f.cname, 'status': 'no-guard'})
+        else:
+            L.append('Example guard_%s : guard_check p_%s %d = true.  Proof. vm_compute. reflexivity. Qed.' % (f.cname, f.cname, f.ctx.guard))
+            status['guard'].append({'fn': f.cname, 'status': 'proved'})
+            status['guard_names'].append('guard_%s' % f.cname)
+    L.append('')
+    for q in pairs:
+        s, p = byid[q['s']], byid[q['p']]
+        nm = 'rt_%s__%s' % (s.cname, p.cname)
+        if s.err is not None or p.err is not None:
+            status['rt'].append({'pair': nm, 'status': 'untranslated'})
+            L.append('(* %s : untranslated function, no obligation can be stated *)' % nm)
+            continue
+        why = setter_shape(s.ctx.stmts) or parser_shape(p.ctx.stmts)
+        if why:
+            status['rt'].append({'pair': nm, 'status': 'shape', 'why': why})
+            L.append('(* %s : outside the shape covered by roundtrip_sound (%s): correspondence and oracle only *)' % (nm, why))
+            continue
+        full = [(j, a) for j, a in q['map'] if md[s.id]['ins'][a]['kind'] in ('int', 'double')]
+        excl = []
+        for j, a in full:
+            fname = re.sub(r'^N2kData\.', '', md[s.id]['ins'][a]['name'])
+            kind = 'int' if md[s.id]['ins'][a]['kind'] == 'int' else 'scaled'
+            if any(k.startswith('PGN%s.%s.' % (q['pgn'], fname)) for k in known):
+                excl.append((j, a))
+        keep = [x for x in full if x not in excl]
+        ms = lambda l: '[%s]' % '; '.join('(%d%%nat, %d%%nat)' % x for x in l)
+        L.append('Example %s : rt_check s_%s p_%s gamma_%s %s = true.  Proof. vm_compute. reflexivity. Qed.' % (nm, s.cname, p.cname, s.cname, ms(keep)))
+        status['rt_names'].append(nm)
+        st = {'pair': nm, 'status': 'proved', 'fields': len(keep)}
+        if excl:
+            L.append('Example %s_refuted : rt_check s_%s p_%s gamma_%s %s = false.  Proof. vm_compute. reflexivity. Qed.' % (nm, s.cname, p.cname, s.cname, ms(full)))
+            st['status'] = 'partial'
+            st['excluded_known'] = ['%s' % md[s.id]['ins'][a]['name'] for _, a in excl]
+            status['rt_names'].append(nm + '_refuted')
+        status['rt'].append(st)
+    L.append('')
+    L.append('(* the lists that the summary theorems of Props/Properties_C05.v quantify over *)')
+    rtl = []
+    for q in pairs:
+        s, p = byid[q['s']], byid[q['p']]
+        nm = 'rt_%s__%s' % (s.cname, p.cname)
+        st = [x for x in status['rt'] if x['pair'] == nm][0]
+        if st['status'] in ('proved', 'partial'):
+            full = [(j, a) for j, a in q['map'] if md[s.id]['ins'][a]['kind'] in ('int', 'double')]
+            excl = set()
+            for j, a in full:
+                fname = re.sub(r'^N2kData\.', '', md[s.id]['ins'][a]['name'])
+                if any(k.startswith('PGN%s.%s.' % (q['pgn'], fname)) for k in known):
+                    excl.add((j, a))
+            keep = [x for x in full if x not in excl]
+            rtl.append('(s_%s, p_%s, gamma_%s, [%s])' % (s.cname, p.cname, s.cname, '; '.join('(%d%%nat, %d%%nat)' % x for x in keep)))
+    L.append('Definition rt_pairs : list (setter * parser * list argty * list (nat * nat)) := [\n  %s].' % ';\n  '.join(rtl))
+    gl = ['(p_%s, %d)' % (f.cname, f.ctx.guard) for f in fns if f.kind == 'P' and f.err is None and f.ctx.guard is not None]
+    L.append('Definition guarded_parsers : list (parser * Z) := [\n  %s].' % ';\n  '.join(gl))
+    L.append('Example rt_pairs_checked : forallb (fun q => match q with (s, p, g, m) => rt_check s p g m end) rt_pairs = true.  Proof. vm_compute. reflexivity. Qed.')
+    L.append('Example guarded_parsers_checked : forallb (fun q => guard_check (fst q) (snd q)) guarded_parsers = true.  Proof. vm_compute. reflexivity. Qed.')
+    allmeta['obligations'] = status
+    return '\n'.join(L) + '\n'
+
 
 
 def debug_main():
